@@ -478,20 +478,20 @@ type c12File struct {
 }
 
 type c12World struct {
-	c        *kit.Case
-	unit     string
-	v2       bool
-	universe uint64
-	parent   []int
-	depth    []int
-	dirs     []string
-	kids     [][]int
-	maxDepth int
-	res      []int
-	files    [][]*c12File // [node][index into res]
-	calls    int
-	crash    int
-	trace    [][]uint64 // state after each updater call of the current rewrite (flattened node-major)
+	c               *kit.Case
+	unit            string
+	v2              bool
+	universe        uint64
+	parent          []int
+	depth           []int
+	dirs            []string
+	kids            [][]int
+	maxDepth        int
+	res             []int
+	files           [][]*c12File // [node][index into res]
+	calls           int
+	crash           int
+	trace           [][]uint64 // state after each updater call of the current rewrite (flattened node-major)
 	continueOnKnown bool
 }
 
@@ -591,7 +591,13 @@ func (w *c12World) checkValid(where string) {
 			}
 			ch, pa := w.files[n][ri], w.files[p][ri]
 			if !c12Leq(res, ch.cur, pa.cur) {
-				w.c.Fail("C12/"+w.unit+"/mid-rewrite-invalid/"+c12ResNames[res],
+				sig := "C12/" + w.unit + "/mid-rewrite-invalid/" + c12ResNames[res]
+				if res == c12CPUSet && ch.cur == ch.start|ch.target && ch.cur != ch.target && ch.target&^pa.cur == 0 {
+					// the child still holds the union written by the merge pass while the parent is
+					// already being narrowed: the child's exact write was skipped
+					sig += "/child-left-at-union-of-old-and-new"
+				}
+				w.c.Fail(sig,
 					"%s (cgroup %s): %s of child %s = %s is not within parent %s = %s (child start %s target %s, parent start %s target %s)\n%s",
 					where, w.ver(), c12ResNames[res], w.dirs[n], c12Show(res, ch.cur), w.dirs[p], c12Show(res, pa.cur),
 					c12Show(res, ch.start), c12Show(res, ch.target), c12Show(res, pa.start), c12Show(res, pa.target), w.dump())
@@ -605,7 +611,7 @@ func (w *c12World) snapshot(call string, f *c12File, err error) {
 	w.calls++
 	w.c.Op("  #%d %s %s %s err=%v", w.calls, call, w.dirs[f.node], c12ResNames[f.res], err)
 	if err != nil {
-		w.c.Count("updater_call_errors", 1)
+		w.c.Count("executor_updater_call_errors", 1)
 	}
 	written := w.scan()
 	if len(written) > 1 {
@@ -619,16 +625,19 @@ func (w *c12World) snapshot(call string, f *c12File, err error) {
 	where := fmt.Sprintf("after call #%d (%s of %s %s)", w.calls, call, w.dirs[f.node], c12ResNames[f.res])
 	w.checkValid(where)
 	w.crash++
-	w.c.Count("crash_points_examined", 1)
+	w.c.Count("executor_crash_points_examined", 1)
 	if len(written) > 0 {
-		w.c.Count("crash_points_after_a_write", 1)
+		w.c.Count("executor_crash_points_after_a_write", 1)
 		w.trace = append(w.trace, w.flat())
 	}
 	for _, wf := range written {
 		if wf.start == wf.target {
-			w.c.Fail("C12/"+w.unit+"/unchanged-file-rewritten/"+c12ResNames[wf.res]+"/"+w.ver(),
-				"%s (cgroup %s): %s of %s was written although its target %s equals its start value (now %s; in batch=%v)",
-				where, w.ver(), c12ResNames[wf.res], w.dirs[wf.node], c12Show(wf.res, wf.target), c12Show(wf.res, wf.cur), wf.inBatch)
+			// The hierarchy and the values are still right, so the case goes on (Report, not Fail):
+			// the later oracles of this case are not masked by this finding.
+			w.c.Count("executor_unchanged_files_rewritten", 1)
+			w.c.Report("C12/"+w.unit+"/unchanged-file-rewritten/"+c12ResNames[wf.res]+"/"+w.ver(),
+				"%s (cgroup %s): %s of %s was written although its target %s equals its start value (content before %q, value passed %s semantics, now %s; in batch=%v)",
+				where, w.ver(), c12ResNames[wf.res], w.dirs[wf.node], c12Show(wf.res, wf.target), c12Display(wf.res, wf.start, w.v2), c12Show(wf.res, wf.target), c12Show(wf.res, wf.cur), wf.inBatch)
 		}
 	}
 }
@@ -858,28 +867,34 @@ func (w *c12World) rewrite(r *kit.Rand, e *ResourceUpdateExecutorImpl, label str
 	if late := w.scan(); len(late) > 0 {
 		c.Harness("%d files were written outside any updater call", len(late))
 	}
-	c.Count("rewrites", 1)
-	c.Count("rewrites_cgroup_"+w.ver(), 1)
+	c.Count("executor_rewrites", 1)
+	c.Count("executor_rewrites_cgroup_"+w.ver(), 1)
 	parentAndChildChanged := false
 	for ri, res := range w.res {
 		for n := range w.dirs {
 			f := w.files[n][ri]
 			if f.cur != f.target {
-				c.Fail("C12/"+w.unit+"/final-not-target/"+c12ResNames[res],
+				sig := "C12/" + w.unit + "/final-not-target/" + c12ResNames[res]
+				if res == c12CPUSet && f.cur == f.start|f.target {
+					sig += "/left-at-union-of-old-and-new"
+				}
+				c.Fail(sig,
 					"%s (cgroup %s): after LeveledUpdateBatch returned %s of %s holds %s, target %s (start %s, %d writes)\n%s",
 					label, w.ver(), c12ResNames[res], w.dirs[n], c12Show(res, f.cur), c12Show(res, f.target), c12Show(res, f.start), f.writes, w.dump())
 			}
 			cl := w.classify(f)
-			c.Count("files_"+cl, 1)
+			c.Count("executor_files_"+cl, 1)
 			if cl == "unchanged" {
-				c.Count("files_unchanged_not_rewritten", 1) // a write would have failed the case in snapshot()
+				if f.writes == 0 {
+					c.Count("executor_files_unchanged_not_rewritten", 1)
+				}
 				if !f.inBatch {
-					c.Count("files_not_in_batch", 1)
+					c.Count("executor_files_not_in_batch", 1)
 				}
 			} else {
-				c.Count("file_writes", f.writes)
+				c.Count("executor_file_writes", f.writes)
 				if f.writes >= 2 {
-					c.Count("files_written_twice_merge_then_exact", 1)
+					c.Count("executor_files_written_twice_merge_then_exact", 1)
 				}
 				if p := w.parent[n]; p >= 0 && w.files[p][ri].start != w.files[p][ri].target {
 					parentAndChildChanged = true
@@ -983,7 +998,7 @@ func TestVerifC12Executor(t *testing.T) {
 					close(stop)
 					e, stop = c12NewExecutor()
 					cacheState = "cold-after-crash"
-					c.Count("rewrites_resumed_from_crash_point", 1)
+					c.Count("executor_rewrites_resumed_from_crash_point", 1)
 					for _, f := range w.all() {
 						f.start = f.cur
 						c.Seen(w.v2, w.maxDepth, c12ResNames[f.res], "resume", w.classify(f))
@@ -991,10 +1006,13 @@ func TestVerifC12Executor(t *testing.T) {
 					w.rewrite(r, e, fmt.Sprintf("rewrite %d (restart from crash point %d of the previous one, cold cache)", i, j))
 				} else {
 					kinds := make([]int, len(w.res))
+					for _, f := range w.all() {
+						f.start = f.cur
+					}
 					for ri := range w.res {
 						kinds[ri] = r.Weighted(20, 20, 20, 15, 20, 5)
 						w.genTargets(r, ri, kinds[ri])
-						c.Count("rewrite_kind_"+c12KindNames[kinds[ri]], 1)
+						c.Count("executor_rewrite_kind_"+c12KindNames[kinds[ri]], 1)
 					}
 					w.rewrite(r, e, fmt.Sprintf("rewrite %d (cache %s)", i, cacheState))
 					for ri, res := range w.res {
@@ -1008,14 +1026,19 @@ func TestVerifC12Executor(t *testing.T) {
 						c.Seen(w.v2, w.maxDepth, c12ResNames[res], c12KindNames[kinds[ri]], cacheState, wr)
 					}
 				}
-				c.Count("cache_"+cacheState, 1)
+				c.Count("executor_cache_"+cacheState, 1)
 				cacheState = "warm-previous-rewrite"
 				w.redisplay()
 			}
 			if c.K < 2 {
 				ops := c.Ops()
-				if len(ops) > 14 {
-					ops = ops[:14]
+				if len(ops) > 8 {
+					ops = ops[:8]
+				}
+				for i, o := range ops {
+					if len(o) > 300 {
+						ops[i] = o[:300] + "..."
+					}
 				}
 				c.Sample(ops)
 			}
